@@ -59,10 +59,18 @@ POOL = sorted(set(LETTERS + CAS_POOL + NAME_POOL + ALIAS_POOL + GROUP_POOL +
 NAMEID = {nm: i for i, nm in enumerate(POOL)}
 COQ_HEADER = ('From V Require Import Common.Num C10.Model.\nOpen Scope Q_scope.\nOpen Scope string_scope.\n'
               + ''.join(f'Definition n{i} : string := "{nm}".\nDefinition k{i} : key := KStr n{i}.\n' for i, nm in enumerate(POOL))
-              + 'Definition kt := KTup.\nDefinition kl := KList.\nDefinition p_ := Pos.\nDefinition g_ := Grp.\n'
+              + ''.join(f'Definition p{i} := Pos {i}.\n' for i in range(9))
+              + 'Definition kt := KTup.\nDefinition kl := KList.\nDefinition g_ := Grp.\n'
+                'Definition s0 : kind := Some 0%nat.\nDefinition s1 : kind := Some 1%nat.\nDefinition s2 : kind := Some 2%nat.\nDefinition s3 : kind := Some 3%nat.\n'
+                'Definition ec (k : key) (c : cindex) (kd : kind) : key * cval := (k, (c, kd)).\n'
+                'Definition emc (k : key) (c : cindex) (kd : kind) : key * mval := (k, (MChem c, kd, true)).\n'
+                'Definition emp (k : key) (p : option nat) (c : cindex) (kd : kind) : key * mval := (k, (MPair p c, kd, false)).\n'
+                'Definition eph (k : key) (p : nat) : key * mval := (k, (MPhase p, None, false)).\n'
+                'Definition eno (k : key) : key * mval := (k, (MNone, None, false)).\n'
+                'Definition cy := CMany.\nDefinition co := COne.\n'
                 'Definition bn (x : Q) := BVal (VNum x).\nDefinition bv (x : vec) := BVal (VVec x).\n'
                 'Definition bm (x : list vec) := BVal (VMat x).\nDefinition bw := BWr.\nDefinition be := BErr.\n'
-                'Definition og := OGet.\nDefinition os := OSet.\n'
+                'Definition og (i : nat) (k : key) := OGet i k.\nDefinition os (i : nat) (k : key) (d : data) := OSet i k d.\n'
                 'Definition cm (l : list target) (k : nat) : cval := (CMany l, Some k).\n')
 
 # ------------------------------------------------------------------ keys (JSON form <-> python <-> Gallina)
@@ -360,21 +368,37 @@ CORPUS = [corpus_trim(), corpus_overlap(), corpus_pell()]
 
 def gen_cases(rng, tier):
     if tier == 'quick':
-        nsmall, nbig = 235, 12
+        nsmall, nbig = 300, 10
     else:
         nsmall, nbig = 3000, 120
     small = [small_case(rng) for _ in range(nsmall)]
     big = [big_case(rng, rng.choice([700, 900, 1200, 1600])) for _ in range(nbig)]
     # spread the big cases over the shards
-    cases = []
-    step = max(1, len(small) // max(1, len(big)))
-    bi = 0
-    for n, c in enumerate(small):
-        if n % step == 0 and bi < len(big):
-            cases.append(big[bi]); bi += 1
-        cases.append(c)
-    cases += big[bi:]
-    return cases
+    return spread(small, big, len(CORPUS))
+
+def spread(small, big, offset):
+    """order the cases so that the expensive ones are shared evenly between the shards the driver evaluates in parallel
+    (the driver cuts the case list into consecutive pieces of vf.SHARD cases)"""
+    import vf
+    total = offset + len(small) + len(big)
+    nsh = max(1, -(-total // vf.SHARD))
+    cap = [vf.SHARD] * nsh
+    cap[-1] = total - vf.SHARD * (nsh - 1)
+    cap[0] -= offset
+    per = [[] for _ in range(nsh)]
+    cost = [0.06 * cap[i] for i in range(nsh)]
+    cost[0] += 4.0
+    for c in sorted(big, key=lambda c: -len(c['ops'])):
+        k = min((i for i in range(nsh) if len(per[i]) < cap[i]), key=lambda i: cost[i])
+        per[k].append(c); cost[k] += len(c['ops']) / 450.0
+    it = iter(small)
+    out = []
+    for i in range(nsh):
+        sh = list(per[i])
+        while len(sh) < cap[i]:
+            sh.append(next(it))
+        out += sh
+    return out
 
 # ------------------------------------------------------------------ implementation side
 def build_package(case):
@@ -559,23 +583,23 @@ def run_impl(case):
 
 # ------------------------------------------------------------------ model side
 def ctarget(t):
-    return f'(p_ {cnat(t[1])})' if t[0] == 'p' else f'(g_ {clist(t[1], cnat)})'
+    return (f'p{t[1]}' if t[1] < 9 else f'(Pos {cnat(t[1])})') if t[0] == 'p' else f'(g_ {clist(t[1], cnat)})'
 
 def ccindex(c):
     if c[0] == 'all': return 'CAll'
-    if c[0] == 'one': return f'(COne {ctarget(c[1])})'
-    return f'(CMany {clist([ctarget(t) for t in c[1]])})'
+    if c[0] == 'one': return f'(co {ctarget(c[1])})'
+    return f'(cy {clist([ctarget(t) for t in c[1]])})'
 
 def ckind(k):
-    return 'None' if k is None else f'(Some {cnat(k)})'
+    return 'None' if k is None else (f's{k}' if k in (0, 1, 2, 3) else f'(Some {cnat(k)})')
 
-def cmval(v):
+def cmentry(k, v):
     mi, kind, sap = v
-    if mi[0] == 'chem': m = f'(MChem {ccindex(mi[1])})'
-    elif mi[0] == 'none': m = 'MNone'
-    elif mi[0] == 'phase': m = f'(MPhase {cnat(mi[1])})'
-    else: m = f'(MPair {copt(mi[1], cnat)} {ccindex(mi[2])})'
-    return f'({m}, {ckind(kind)}, {cbool(sap)})'
+    if mi[0] == 'chem' and sap: return f'(emc {ckey(k)} {ccindex(mi[1])} {ckind(kind)})'
+    if mi[0] == 'none' and kind is None and not sap: return f'(eno {ckey(k)})'
+    if mi[0] == 'phase' and kind is None and not sap: return f'(eph {ckey(k)} {mi[1]})'
+    if mi[0] == 'pair' and not sap: return f'(emp {ckey(k)} {copt(mi[1], cnat)} {ccindex(mi[2])} {ckind(kind)})'
+    raise ValueError(f'unexpected cache value {v}')
 
 def cerr(e):
     return 'None' if e is None else f'(Some {e})'
@@ -590,8 +614,8 @@ def cdata(d):
 
 def cop_term(op):
     k = op[0]
-    if k == 'get': return f'(og {cnat(op[1])} {ckey(op[2])})'
-    if k == 'set': return f'(os {cnat(op[1])} {ckey(op[2])} {cdata(op[3])})'
+    if k == 'get': return f'(og {op[1]} {ckey(op[2])})'
+    if k == 'set': return f'(os {op[1]} {ckey(op[2])} {cdata(op[3])})'
     if k == 'overlap': return f'(OOverlap {clist(op[1], cstr)})'
     if k == 'mix': return f'(OMix {cnat(op[1])} {clist(op[2], cstr)} {qlist(op[3])})'
     if k == 'index': return f'(OIndex {ckey(op[1])})'
@@ -629,8 +653,8 @@ def coq_case(case, out):
     ixs = clist([cixr(x) for x in case['ixs']])
     ops = clist([cop_term(o) for o in case['ops']])
     obs = clist([cobs(o) for o in out['obs']])
-    cc = clist([f'({ckey(k)}, ({ccindex(i)}, {ckind(kd)}))' for k, i, kd in out['cc']])
-    mc = clist([f'({clist(ph.split(","), cstr)}, {clist([f"({ckey(k)}, {cmval(v)})" for k, v in ents])})' for ph, ents in out['mc']])
+    cc = clist([f'(ec {ckey(k)} {ccindex(i)} {ckind(kd)})' for k, i, kd in out['cc']])
+    mc = clist([f'({clist(ph.split(","), cstr)}, {clist([cmentry(k, v) for k, v in ents])})' for ph, ents in out['mc']])
     return (f'(case_eqb {VARIANT} {chems} {cops} None {clist(out["cop_errs"], cerr)} {table} {absent} {comps} '
             f'{ixs} {ops} {obs} {cc} {mc})')
 
